@@ -238,6 +238,32 @@ func SolveAll(g *Gen, header string, results []*FnResult, outDir string, par int
 // not given the second, three times longer chance.
 var NoRetry func(oblName string) bool
 
+// RetryHint, when set (check), gives the solver seconds the obligation's class needed when the baseline was written
+// (classes decided in under half a second are not recorded). The second chance is sized by it: a class that is normally
+// fast and is in the baseline gets the plain timeout again (a genuine failure is then reported sooner), a class known
+// to be slow gets 25 times its recorded time (at least three times the timeout, at most 300 s), so that a loaded
+// machine does not turn a slow proof into an alarm.
+var RetryHint func(oblName string) (float64, bool)
+
+func retryBudget(sr *SolveResult, timeoutS int) int {
+	to := 3 * timeoutS
+	if RetryHint != nil && sr.Obl != nil {
+		if secs, ok := RetryHint(sr.Obl.Name); ok {
+			if secs == 0 {
+				return 2 * timeoutS
+			}
+			to = int(25 * secs)
+			if to < 3*timeoutS {
+				to = 3 * timeoutS
+			}
+			if to > 300 {
+				to = 300
+			}
+		}
+	}
+	return to
+}
+
 func retryTimeouts(out []*SolveResult, timeoutS int) {
 	var idx []int
 	for i, r := range out {
@@ -273,7 +299,7 @@ func retryTimeouts(out []*SolveResult, timeoutS int) {
 			ch := make(chan res, len(solvers))
 			for _, s := range solvers {
 				go func(s solverSpec) {
-					st, o, secs := runSolverCtx(ctx, s, sr.File, 3*timeoutS)
+					st, o, secs := runSolverCtx(ctx, s, sr.File, retryBudget(sr, timeoutS))
 					ch <- res{s, st, o, secs}
 				}(s)
 			}
